@@ -665,6 +665,10 @@ def compare_style(res, V, st, sn, m, case, ok, nc, src_items):
     for n in PROBE_NAMES:
         if (n in st) != m.contains(n):
             V('C10.names', f'__contains__|name={nameclass(n)}', dict(c, lookup=n), m.contains(n), n in st, size=size)
+    # membership asked with a Property object: every entry the block holds is "in" it, whatever spelling its literal name has
+    for p in st.getProperties(all=True):
+        if (p in st) is not True:
+            V('C10.names', f'__contains__(Property)|own-entry|name={nameclass(p.literalname)}', dict(c, lookup=p.literalname), True, p in st, size=size)
     # serialisation
     res.clauses['C10.cssText'] += 1
     obs = parse_style_text(sn.text)
